@@ -25,7 +25,7 @@ func init() {
 
 func runC11(c *eng.Ctx, tier string) {
 	p := c.P
-	poll := p.Method(setecPkg, "Store", "poll")
+	poll := anchor(p, setecPkg, "(*Store).poll")
 	refresh := p.Method(setecPkg, "Store", "Refresh")
 	afs := applyFuncs(c)
 	if poll == nil || refresh == nil || len(afs) == 0 {
@@ -701,7 +701,7 @@ func c11Cadence(c *eng.Ctx) {
 			}
 		})
 	}
-	run := p.Method(setecPkg, "Store", "run")
+	run := anchor(p, setecPkg, "(*Store).run")
 	if run == nil {
 		c.Undecided("R-C11-7", nil, 0, "setec.(*Store).run", "anchor does not resolve")
 		return
